@@ -582,8 +582,12 @@ class Project(NamedItem):
         show_progress = n_samples > 1 and logger.getEffectiveLevel() <= logging.INFO
 
         if parallel:
-            fcn = functools.partial(_run_sampled_sim, proj=self, parset=parset, progset=progset, progset_instructions=progset_instructions, result_names=result_names, max_attempts=max_attempts)
-            results = parallel_progress(fcn, n_samples, show_progress=show_progress, num_workers=num_workers)
+            # The workers are forked copies of this process, so they all start from the same global random number generator state.
+            # To ensure that every sample is an independent draw regardless of which worker runs it, each sample is given
+            # its own seed (drawn here, so that the samples remain reproducible if the calling code seeds the generator)
+            seeds = np.random.randint(0, 2**31 - 1, size=n_samples).tolist()
+            fcn = functools.partial(_run_seeded_sampled_sim, proj=self, parset=parset, progset=progset, progset_instructions=progset_instructions, result_names=result_names, max_attempts=max_attempts)
+            results = parallel_progress(fcn, seeds, show_progress=show_progress, num_workers=num_workers)
         elif show_progress:
             # Print the progress bar if the logging level was INFO or lower
             # This means that the user can still set the logging level higher e.g. WARNING to suppress output from Atomica in general
@@ -731,6 +735,19 @@ class Project(NamedItem):
         self.__dict__ = d
         P = migrate(self)
         self.__dict__ = P.__dict__
+
+
+def _run_seeded_sampled_sim(seed: int, **kwargs):
+    """
+    Internal function to run a sampled simulation on a parallel worker
+
+    Seeds the worker's global random number generator with the sample-specific seed, then
+    calls :func:`_run_sampled_sim` with the remaining arguments
+
+    """
+
+    np.random.seed(seed)
+    return _run_sampled_sim(**kwargs)
 
 
 def _run_sampled_sim(proj, parset, progset, progset_instructions: list, result_names: list, max_attempts: int = None):
